@@ -57,6 +57,11 @@ class Child:
         self.loops = loops  # list of (target text, iter text)
         self.origin = origin
         self.extend = extend
+        self.unroll = Child.current_unroll  # which iteration of an unrolled literal loop emitted it (0 = none)
+        self.aliases = dict(Child.current_aliases)  # loop variables of unrolled literal loops -> element expression
+
+    current_unroll = 0
+    current_aliases = {}
 
 
 class CallRef:
@@ -87,6 +92,7 @@ class WriterModel:
         self.mod = repo.mod(WX)
         self.summaries = {}
         self.funcs = {}
+        self.unresolved = []  # (function name, statement text): appended values the model could not interpret
         for c in self.mod.classes.values():
             for n, f in c.methods.items():
                 self.funcs[(c.name, n)] = (c, f)
@@ -102,6 +108,10 @@ class WriterModel:
             return None, None
         if isinstance(f, ast.Attribute):
             v = f.value
+            if isinstance(v, ast.Name):
+                b = env.get(v.id)
+                if isinstance(b, tuple) and b[0] == "alias" and isinstance(b[1], ast.Name):
+                    v = b[1]  # loop variable of an unrolled loop over a constant tuple
             if isinstance(v, ast.Name):
                 if v.id in ("cls", "self") and cls is not None:
                     owner, m = self.repo.find_method(cls, f.attr)
@@ -163,6 +173,8 @@ class WriterModel:
             v = env.get(expr.id)
             if isinstance(v, (Node, CallRef, list)):
                 return v
+            if isinstance(v, tuple) and v[0] == "alias":
+                return self._value(s, v[1], env)
             return None
         if isinstance(expr, ast.IfExp):
             return alt(self._value(s, expr.body, env), self._value(s, expr.orelse, env))
@@ -235,6 +247,8 @@ class WriterModel:
                     arg = c.args[-1]
                     v = self._value(s, arg, env)
                     if v is None:
+                        # fail closed: something is appended to a node we model, and we cannot tell what
+                        self.unresolved.append((s.fn.name, norm(st)[:120], st.lineno))
                         return
                     if isinstance(v, CallRef):
                         self._apply_call_on_nodes(s, v, env, st)
@@ -272,6 +286,24 @@ class WriterModel:
                 else:
                     env[k] = va if va is not None else vb
             return
+        if isinstance(st, ast.For) and isinstance(st.iter, (ast.Tuple, ast.List)) and st.iter.elts and not st.orelse:
+            # loop over a literal tuple (of tuples): unrolled, the targets are aliases of the element expressions
+            tgts = st.target.elts if isinstance(st.target, (ast.Tuple, ast.List)) else [st.target]
+            ok = all(isinstance(t, ast.Name) for t in tgts)
+            for e in st.iter.elts:
+                parts = e.elts if isinstance(e, (ast.Tuple, ast.List)) and len(tgts) > 1 else [e]
+                ok = ok and len(parts) == len(tgts)
+            if ok:
+                saved, saved_al = Child.current_unroll, Child.current_aliases
+                for k, e in enumerate(st.iter.elts):
+                    parts = e.elts if isinstance(e, (ast.Tuple, ast.List)) and len(tgts) > 1 else [e]
+                    for t, x in zip(tgts, parts):
+                        env[t.id] = ("alias", x)
+                    Child.current_unroll = saved * 100 + k + 1
+                    Child.current_aliases = dict(saved_al, **{t.id: x for t, x in zip(tgts, parts)})
+                    self._block(s, st.body, env, guards, loops)
+                Child.current_unroll, Child.current_aliases = saved, saved_al
+                return
         if isinstance(st, (ast.For, ast.While)):
             lp = loops + [(norm(st.target) if isinstance(st, ast.For) else "", norm(st.iter) if isinstance(st, ast.For) else "")]
             self._block(s, st.body, env, guards, lp)
